@@ -96,6 +96,20 @@ func runC19(cfg *vh.Config) error {
 				if !okL {
 					res.Fail(vh.Failure{Case: caseNo, Stream: in.stream, Sig: "C19 LSP TextEdits differ from FmtDiffs", Clause: "the list of line edits offered to editors", Input: inS, Got: fmt.Sprint(lg.Val)})
 				}
+				// the editor reaches a fixed point after one format: the formatted text has no edits left
+				// (follows from C19 + C09 only up to no-op edits; observed, reported, not decisive)
+				if sg := guard(5*time.Second, func() diffsObs { e, err := bcl.FmtDiffs(fmtOut); return diffsObs{e, err} }); sg.Panic == nil && !sg.Timeout && sg.Val.err == nil {
+					if len(sg.Val.edits) == 0 {
+						res.Count("second_format_no_edits")
+					} else {
+						res.Count("second_format_has_edits")
+						if len(res.Notes) < 5 {
+							res.Notes = append(res.Notes, fmt.Sprintf("FmtDiffs(Fmt(x)) is not empty for %s: %v", inS, sg.Val.edits))
+						}
+					}
+				} else {
+					res.Fail(vh.Failure{Case: caseNo, Stream: in.stream, Sig: "C19 FmtDiffs fails on the formatter's own output", Clause: "the list of line edits is computed without failure", Input: fmt.Sprintf("Fmt(%s)", inS), Got: fmt.Sprint(sg.Panic, sg.Val.err)})
+				}
 			}
 		}
 		if in.emit {
